@@ -138,9 +138,19 @@ def worker(task):
         # faults of the documented-constraint catalogue too (cycles, unknown names, bad kinds...): for this
         # property they only have to end in a configuration error
         if dialect == 3 and dirs == [{}]:
+            # every operator of the catalogue is visited across the configurations of a run (round robin from the
+            # task's seed), at a random applicable site
             app = faults.applicable(cfg)
             rnd.shuffle(app)
-            for oi, site in app[:max(3, nmut // 2)]:
+            nops = len(faults.OPS)
+            want = [((seed % 1000) * 7 + j) % nops for j in range(max(6, nmut))]
+            picked = []
+            for w_ in want:
+                for oi, site in app:
+                    if oi == w_:
+                        picked.append((oi, site))
+                        break
+            for oi, site in picked:
                 try:
                     m = faults.apply(cfg, oi, site, rnd)
                 except Exception:
